@@ -564,6 +564,8 @@ class StmtMixin:
     def _inv(self, spec, L, tag):
         """evaluate a loop invariant; an invariant that names a local variable the code no longer has cannot be
         stated on this code: the function then leaves the annotated subset (never a checker fault)"""
+        if spec.inv is None:
+            raise Unsupported('%s: the contract has no invariant for this loop' % tag)
         try:
             return spec.inv(L)
         except (KeyError, AttributeError) as e:
@@ -586,6 +588,8 @@ class StmtMixin:
         spec, ordinal = self.loop_spec(st, n)
         if spec is not None and spec.comp is not None:
             return spec.comp(self, st, it, n)
+        if spec is not None and spec.alloc_elem is not None:
+            return self.comp_alloc(n, g, st, it, spec, ordinal)
         saved = dict(st.loc)
         if z3.is_int_value(cnt) and cnt.as_long() <= UNROLL_LIMIT:
             # static length: evaluate element by element (side effects allowed)
@@ -705,6 +709,82 @@ class StmtMixin:
         Lq = _L(self, cx, st, j, it.n, it, st)
         rng = z3.And(j >= 0, j < it.n)
         out.extend(build(st, None, (j, rng, None, spec.summary(Lq, j), it)))
+        return out
+
+    def comp_alloc(self, n, g, st, it, spec, ordinal):
+        """{k: f(v) for k, v in d.items()} with an allocating element expression (LoopSpec.alloc_elem): the element facts
+        are obligations for an arbitrary key in an arbitrary intermediate state (the havocked fields changed only on
+        objects allocated since the comprehension began), and hypotheses for every entry of the resulting dict"""
+        ok_shape = (isinstance(n, ast.DictComp) and getattr(it, 'map', None) is not None and not g.ifs
+                    and isinstance(g.target, ast.Tuple) and len(g.target.elts) == 2
+                    and all(isinstance(e_, ast.Name) for e_ in g.target.elts)
+                    and isinstance(n.key, ast.Name) and n.key.id == g.target.elts[0].id)
+        if not ok_shape:
+            raise Unsupported('allocating comprehension that is not {k: f(v) for k, v in d.items()}')
+        from .values import keys_of
+        top = st.ghost.get('$top', '?')
+        tag = '%s/comp%d' % (st.fn if st.fn != top else top, ordinal)
+        saved = dict(st.loc)
+        Dm = it.map
+        K = keys_of(Dm)
+        kname, vname = g.target.elts[0].id, g.target.elts[1].id
+
+        def havocked(base):
+            h = base.fork()
+            for f in spec.havoc:
+                oldarr = h.H(f)
+                h.heap[f] = self.fresh('H!' + f, oldarr.sort())
+                fr = z3.Int('ca!r')
+                h.assume(qforall([fr], z3.Implies(fr < st.ap, z3.Select(h.heap[f], fr) == z3.Select(oldarr, fr)),
+                                 patterns=[z3.Select(h.heap[f], fr)]))
+            h.ap = self.fresh('ap', Int)
+            h.assume(h.ap >= st.ap)
+            return h
+        mid = havocked(st)
+        j = self.fresh('cj', Int)
+        probe = mid.fork()
+        probe.assume(j >= 0, j < it.n)
+        probe.loc[kname] = V.str(K[j])
+        probe.loc[vname] = z3.Select(Dm, K[j])
+        self.wf_load(probe, probe.loc[vname])
+        head_heap = dict(probe.heap)
+        nwrites = len(probe.ghost.get('$writes', []))
+        out = []
+        for s3, k3, vs in self.ev_seq([n.value], probe):
+            if k3 != 'ok':
+                s3.loc = dict(saved)
+                out.append((s3, k3, vs))
+                continue
+            for (wf_, wr_, _pc, _wv) in s3.ghost.get('$writes', [])[nwrites:]:
+                if not self._is_alloc_term(z3.simplify(wr_)):
+                    raise Unsupported('%s: the element expression writes an object that existed before' % tag)
+            for f, t in s3.heap.items():
+                if f not in spec.havoc and f in head_heap and not z3.eq(head_heap[f], t):
+                    raise Unsupported('%s: the element expression writes field %s not declared in havoc' % (tag, f))
+            fr2 = z3.Int('ca2!r')
+            for f in spec.havoc:
+                if not z3.eq(s3.H(f), head_heap[f]):
+                    self.oblige(s3, '%s/elem-frame:%s' % (tag, f),
+                                qforall([fr2], z3.Implies(fr2 < st.ap, z3.Select(s3.H(f), fr2) == z3.Select(head_heap[f], fr2))), 'frame')
+            for label, gl in _lab(spec.alloc_elem(self, V.str(K[j]), vs[0], st.ap, s3.ap)):
+                self.oblige(s3, '%s/elem:%s' % (tag, label), gl, 'comp-elem')
+        done = havocked(st)
+        w = z3.Function('comp!w!%d' % next(self.n), Int, V)
+        idx = z3.Function('comp!idx!%d' % next(self.n), Str, Int)
+        jj = z3.Int('ca!j')
+        kq = z3.String('ca!k')
+        Rm = self.fresh('compmap', Dm.sort())
+        inr = z3.And(jj >= 0, jj < it.n)
+        facts = [gl for _, gl in _lab(spec.alloc_elem(self, V.str(K[jj]), w(jj), st.ap, done.ap))]
+        done.assume(qforall([jj], z3.Implies(inr, z3.And([z3.Select(Rm, K[jj]) == w(jj), w(jj) != ABSENT] + facts)),
+                            patterns=[K[jj]]))
+        done.assume(qforall([kq], (z3.Select(Rm, kq) != ABSENT) == (z3.Select(Dm, kq) != ABSENT), patterns=[z3.Select(Rm, kq)]))
+        done.assume(qforall([kq], z3.Implies(z3.Select(Dm, kq) != ABSENT,
+                                             z3.And(idx(kq) >= 0, idx(kq) < it.n, K[idx(kq)] == kq)), patterns=[z3.Select(Rm, kq)]))
+        done.assume(keys_of(Rm) == K)      # same keys in the same (insertion) order
+        done.loc = dict(saved)
+        o = self.new_dict(done, Rm)
+        out.append((done, 'ok', o))
         return out
 
     def e_ListComp(self, n, st):
